@@ -63,8 +63,12 @@ class FakeConfig:
         self.size, self.rank = size, rank
 
 
+_CFGS = {}
+
+
 def impl_ranges(par, size, start, stop):
-    cfg = FakeConfig(size, 0)
+    # one configuration object per process count, reused across calls (as the Manager's is)
+    cfg = _CFGS.setdefault(size, FakeConfig(size, 0))
     par._calculate_ranges(cfg, start, stop)
     return [tuple(r) for r in cfg.ranges]
 
@@ -143,11 +147,19 @@ def run(ck):
         api_cases.append((kind, size, a, a + ln if kind in ("range", "serial_range") else ln))
     try:
         for (kind, size, a, b) in api_cases:
+          try:
             per_rank = []
             cfg.size = size
             cfg.parallel_region = 1
             cfg.parallel_level = 0 if kind.startswith("serial") else 1
             data = list(range(100, 100 + b))
+            # arrays with 1-3 axes: rows are distributed, the first column identifies the row
+            extra = rng_shape = ()
+            if kind in ("array", "array_idx"):
+                extra = ck.rng.choice([(), (), (3,), (2, 2), (1,)])
+            adata = numpy.array(data, dtype=int).reshape((b,) + (1,) * len(extra)) * numpy.ones((b,) + extra, dtype=int) if b > 0 \
+                else numpy.zeros((0,) + extra, dtype=int)
+            first = lambda row: int(numpy.asarray(row).flat[0])
             for rank in range(size):
                 cfg.rank = rank
                 if kind in ("range", "serial_range"):
@@ -160,13 +172,15 @@ def run(ck):
                         ck.fail("list_idx:pairs", "return_index pairs inconsistent", {"size": size, "len": b})
                     r = [i for i, v in got]
                 elif kind == "array":
-                    r = [int(x) - 100 for x in par.block_distributed_array(numpy.array(data, dtype=int))]
+                    r = [first(x) - 100 for x in par.block_distributed_array(adata)]
                 elif kind == "array_idx":
-                    got = par.block_distributed_array(numpy.array(data, dtype=int), return_index=True)
-                    if any(data[i] != int(v) for i, v in got):
+                    got = par.block_distributed_array(adata, return_index=True)
+                    if any(data[i] != first(v) for i, v in got):
                         ck.fail("array_idx:pairs", "return_index pairs inconsistent", {"size": size, "len": b})
                     r = [i for i, v in got]
                 per_rank.append(r)
+                if len(per_rank) == 1 and extra:
+                    ck.dist["array_axes=%d" % (1 + len(extra))] += 1
             lo = a if kind in ("range", "serial_range") else 0
             hi = b
             ck.case((kind, size, a, b), nontrivial=size > 1, kind="api:" + kind,
@@ -177,11 +191,17 @@ def run(ck):
                 if flat != list(range(lo, hi)):
                     ck.fail("cover:block_distributed_%s" % kind, "union of the per-rank pieces is not the requested range/list",
                             {"api": kind, "size": size, "lo": lo, "hi": hi}, flat[:15], list(range(lo, hi))[:15])
+                szs = [len(r) for r in per_rank]
+                if max(szs) - min(szs) > 1:
+                    ck.fail("balance:block_distributed_%s" % kind, "per-rank block sizes differ by more than one",
+                            {"api": kind, "size": size, "lo": lo, "hi": hi, "array_extra_axes": list(extra)}, szs, "max-min<=1")
                 if sum(x * x + 1 for x in flat) != sum(x * x + 1 for x in range(lo, hi)):
                     ck.fail("reduce:block_distributed_%s" % kind, "sum-reduced result differs from serial",
                             {"api": kind, "size": size, "lo": lo, "hi": hi})
             lines.append("api %s %d %d %d" % ("serial" if kind.startswith("serial") else "par", size, lo, hi))
             impl_out.append(" | ".join(" ".join(str(x) for x in r) for r in per_rank))
+          except Exception as e:
+            ck.fail("raises:block_distributed_%s" % kind, "helper raised %r" % (e,), {"api": kind, "size": size, "start_or_0": a, "stop_or_len": b})
     finally:
         cfg.size, cfg.rank, cfg.parallel_level, cfg.parallel_region = saved
     # ---- model ------------------------------------------------------------
